@@ -25,3 +25,43 @@ def Summary.wellFormed (s : Summary N) : Bool :=
   s.guards.all (fun g => g == .guarded || g == .absent)
 
 end SkVerif.Params
+
+namespace SkVerif.Params
+variable {N : Type} [DecidableEq N]
+
+mutual
+/-- nesting depth of a parameter tree -/
+def depthVal : Val N → Nat
+  | .atom _ => 0
+  | .est _ _ _ _ ps => depthP ps + 1
+  | .named items => depthP items + 1
+def depthP : PList N → Nat
+  | .nil => 0
+  | .cons _ v tl => max (depthVal v) (depthP tl)
+end
+
+mutual
+/-- A parameter tree as real estimators have it: parameter names distinct (they are the names in a
+signature); an estimator is plain or a heterogeneous meta-estimator whose component list is stored in
+the parameter it names, holds (name, value) pairs with distinct names that clash with no parameter
+name (what `_check_names` enforces); recursively. -/
+def wfTree : Val N → Bool
+  | .atom _ => true
+  | .named items => wfP items
+  | .est _ _ impl _ ps =>
+    !hasDup ps.keys && wfP ps &&
+    (match impl with
+     | .plain => true
+     | .viaMeta attr store =>
+       decide (attr = store) &&
+       (match ps.lookup store with
+        | some (.named items) => !hasDup items.keys && items.keys.all (fun n => !ps.keys.contains n)
+        | _ => false)
+     | .abstr => false
+     | .custom => false)
+def wfP : PList N → Bool
+  | .nil => true
+  | .cons _ v tl => wfTree v && wfP tl
+end
+
+end SkVerif.Params
